@@ -31,7 +31,7 @@ ASSUMPTIONS = ["user functions deterministic"]
 def registry():
     from contracts import lazy, misc, pipeline_call
     allc = lazy.ALL + pipeline_call.ALL + misc.ALL
-    return {**{c.short: c for c in allc}, **{c.name: c for c in allc}}
+    return {**{c.short: c for c in allc}, **{c.name: c for c in allc}, **pipeline_call.registry_entries()}
 
 
 def proof_items():
